@@ -133,7 +133,7 @@ theorem varHead_fold (hdr : Key) (hh1 : hdr ≠ .description) (hh2 : hdr ≠ .en
                       enabled := v.enabled, lo := rnd c.d v.lo, hi := rnd c.d v.hi, lockRange := v.lockRange } := by
   unfold varHead
   by_cases hd : v.description = ""
-  · simp [hd, importVarLine, textOf_textToks, boolOf_boolTok, rangeOf, numTok, hh1.symm, hh2.symm, hh3.symm, hh4.symm]
+  · simp [hd, importVarLine, textOf_textToks, boolOf_boolTok, rangeOf, numTok, hh2.symm, hh3.symm, hh4.symm]
   · simp [hd, importVarLine, textOf_textToks, textOf_w, boolOf_boolTok, rangeOf, numTok, hh1.symm, hh2.symm, hh3.symm,
       hh4.symm]
 
@@ -221,7 +221,7 @@ theorem block_roundtrip (b : Block) (h : BlockOK b) :
   simp only [List.cons_append, List.foldlM_cons, List.foldlM_append]
   by_cases hdesc : b.description = ""
   · simp only [hdesc, if_true, List.foldlM_nil, importBlockLine, textOf_textToks, except_map_ok, except_bind_ok,
-      List.foldlM_cons, boolOf_boolTok, norm_roundtrip _ none_not_tnorm _ hc, norm_roundtrip _ none_not_snorm _ hd,
+      boolOf_boolTok, norm_roundtrip _ none_not_tnorm _ hc, norm_roundtrip _ none_not_snorm _ hd,
       norm_roundtrip _ none_not_tnorm _ hi, activ_roundtrip c _ ha, except_pure]
     rw [foldl_rules keep c b.rules hr]
     simp [canonBlock, hdesc]
